@@ -214,14 +214,51 @@ Proof.
   - apply create_step_ready_sound; assumption.
 Qed.
 
-(* Step.detach / Step.reattach: _safe (the other two columns are not proved; the model primitives
-   are validated against the real calls and the oracle checks FlagInv after every real operation) *)
-Theorem C10_detach_preserves_FlagInv_safe :
-  forall g k, FlagInv_safe g -> FlagInv_safe (detach_step g k).
-Proof. exact detach_step_safe_sound. Qed.
-Theorem C10_reattach_preserves_FlagInv_safe :
-  forall g k c cdet, FlagInv_safe g -> FlagInv_safe (reattach_step g k c cdet).
-Proof. exact reattach_step_safe_sound. Qed.
+(* Step.detach (Node.detach + RECURSIVE_CHECK_WITH_PRODUCTS + RECURSIVE_CHECK_AFTER_SOURCES) keeps
+   FlagInv.  Side conditions (trellis invariants, property C09): no file row has the step's node id;
+   a file of the detached subtree has no producer edge from outside the subtree (outputs are created
+   by their producer). *)
+Theorem C10_detach_preserves_FlagInv :
+  forall g k, WF g ->
+    (forall f, In f (g_files g) -> f_key f <> k) ->
+    (forall d f, In d (g_deps g) -> find_file g (d_snk d) = Some f ->
+       mem_N (f_key f) (k :: below g k) = true -> mem_N (d_src d) (k :: below g k) = true) ->
+    FlagInv g -> FlagInv (detach_step g k).
+Proof. exact detach_step_sound_repo. Qed.
+
+(* Step.reattach under creator c (whose detached flag cdet is inherited by the subtree) keeps FlagInv.
+   Same side condition on outputs; when the new creator is itself detached the subtree must already
+   be detached (products of a detached node are detached). *)
+Theorem C10_reattach_preserves_FlagInv :
+  forall g k c cdet, WF g ->
+    (forall d f, In d (g_deps g) -> find_file g (d_snk d) = Some f ->
+       mem_N (f_key f) (k :: below g k) = true -> mem_N (d_src d) (k :: below g k) = true) ->
+    (cdet = true -> forall s, In s (g_steps g) -> mem_N (s_key s) (k :: below g k) = true -> s_detached s = true) ->
+    FlagInv g -> FlagInv (reattach_step g k c cdet).
+Proof. exact reattach_step_sound_repo. Qed.
+
+(* File.detach (Node.detach on a file node): sound when no step row lives among the touched nodes and
+   no dependency edge leads into them (the callers delete the producer edge first, or the file is a
+   static declaration) *)
+Theorem C10_detach_file_preserves_FlagInv :
+  forall g k, no_step_in g (k :: below g k) ->
+    (forall d f, In d (g_deps g) -> find_file g (d_snk d) = Some f -> mem_N (f_key f) (k :: below g k) = false) ->
+    FlagInv g -> FlagInv (detach_file g k).
+Proof. exact detach_file_sound_repo. Qed.
+
+(* Any sequence of the primitives above, each applied where its side condition (prim_ok) holds, keeps
+   unique keys and the flag invariant.  Composite operations of step.py / workflow.py are tied to such
+   sequences by the correspondence (Step.reset_for_rerun and Workflow.mark_step_pending are replayed as
+   primitive sequences on every occurrence in the histories). *)
+Theorem C10_primitive_sequences_preserve_FlagInv :
+  forall l g g', WF g -> FlagInv g -> run_ok g l -> run_prims g l = Some g' -> WF g' /\ FlagInv g'.
+Proof. exact prims_preserve_FlagInv. Qed.
+
+(* The same with the decidable form of the side conditions, which the harness evaluates on every real
+   occurrence of a replayed composite operation. *)
+Theorem C10_primitive_sequences_preserve_FlagInv_decidable :
+  forall l g g', WF g -> FlagInv g -> run_ok_b g l = true -> run_prims g l = Some g' -> WF g' /\ FlagInv g'.
+Proof. exact prims_preserve_FlagInv_b. Qed.
 
 (* Non-vacuity: the hypotheses are satisfiable by a graph with a chain plan -> c -> b, and the
    refutation witnesses are concrete. *)
